@@ -458,6 +458,12 @@ def body(ck, quick, exes, lower_exe, work, always):
                 text = shrink(exes, text, [f["entry"]], f["args"], work, always, key, budget=40 if quick else 150)
             except Exception as ex:
                 ck.log("shrink failed:", ex)
+        if f["views"].get("core", ["ok"])[0] == "err":
+            # the oracle itself rejects the program (undefined behaviour / unset register): a generator
+            # defect, not a finding about the library
+            ck.broken_ties.append({"kind": "generator", "name": "generated program is not well defined for MirCore",
+                                   "entry": f["entry"], "args": list(f["args"]), "mircore": f["views"]["core"], "mir": text})
+            continue
         if reported < 6:
             ck.violation({"stage": "programs", "entries": [f["entry"]], "args": list(f["args"]), "mir": text, "mir_unshrunk": P.text(),
                           "model_output": f["views"].get("core"), "impl_output": {b: v for b, v in f["views"].items() if b != "core"},
